@@ -105,3 +105,24 @@ def schedule_report():
     r.vacuity = []
     r.seconds = time.time() - t0
     return r
+
+
+# LocalInference.mirror_descent / estimate: what runs and what is stored (C18; the total argument: C09)
+_MDA = 'self.mirror_descent_auto(alpha=initial_alpha, iters=self.iters, callback=callback)'
+LI_MD = dict(params=dict(self='obj:LocalInference', measurements='obj:', total='obj:', initial_alpha='obj:', callback='obj:'), requires=[],
+             pure={'._setup': 'obj', '.mirror_descent_auto': 'obj'}, attr_types={('LocalInference', 'model'): 'obj:'},
+             sites=[dict(func='._setup', arg=0, name='setup-on-the-callers-measurements', spec='same(__arg, measurements__old)'),
+                    dict(func='._setup', arg=1, kw='total', name='setup-with-the-callers-total', spec='same(__arg, total__old)'),
+                    dict(func='.mirror_descent_auto', arg='alpha', name='descent-starts-at-the-given-step', spec='same(__arg, initial_alpha__old)'),
+                    dict(func='.mirror_descent_auto', arg='iters', name='descent-runs-the-estimators-iterations', spec='same(__arg, self.iters)'),
+                    dict(func='.mirror_descent_auto', arg='callback', name='descent-reports-to-the-callers-callback', spec='same(__arg, callback__old)')],
+             ensures={'parameters-of-the-descent-stored': 'same(self.model.potentials, %s[1])' % _MDA,
+                      'tables-of-the-descent-stored': 'same(self.model.marginals, %s[2])' % _MDA,
+                      'loss-of-the-descent-returned': 'same(result, %s[0])' % _MDA,
+                      'one-setup-one-descent': 'ghost("n_site_setup-with-the-callers-total") == 1 and ghost("n_site_descent-runs-the-estimators-iterations") == 1'})
+LI_EST = dict(params=dict(self='obj:LocalInference', measurements='obj:', total='obj:', callback='obj:', options='obj:dict'), requires=[],
+              pure={'.mirror_descent': 'obj', 'callbacks.Logger': 'obj'}, attr_types={('LocalInference', 'model'): 'obj:', ('LocalInference', 'log'): 'bool'},
+              sites=[dict(func='.mirror_descent', arg=0, name='solver-gets-the-callers-measurements', spec='same(__arg, measurements__old)'),
+                     dict(func='.mirror_descent', arg=1, kw='total', name='solver-gets-the-callers-total', spec='same(__arg, total__old)')],
+              ensures={'the-model-is-returned': 'same(result, self.model)', 'one-solver-run': 'ghost("n_site_solver-gets-the-callers-total") == 1'})
+LI_ITEMS = [('src/mbi/local_inference.py', 'LocalInference.mirror_descent', LI_MD), ('src/mbi/local_inference.py', 'LocalInference.estimate', LI_EST)]
